@@ -59,6 +59,10 @@ type executionContext struct {
 	// plan is set on the ExecutePlan path; it lets abstract fields plan
 	// their concrete-type sub-selections lazily at execute time.
 	plan *Plan
+
+	// serialRoot is set for mutations: each top-level field is fully
+	// dethunked before the next one is resolved.
+	serialRoot bool
 }
 
 func buildExecutionContext(p buildExecutionCtxParams) (*executionContext, error) {
@@ -208,6 +212,21 @@ func dethunkListBreadthFirst(list []interface{}, dethunkQueue *dethunkQueue) {
 			dethunkQueue.push(func() { dethunkListBreadthFirst(val, dethunkQueue) })
 		}
 	}
+}
+
+// dethunkValueDepthFirst forces v if it is a thunk and then everything
+// deferred below it, returning the forced value.
+func dethunkValueDepthFirst(v interface{}) interface{} {
+	if f, ok := v.(func() interface{}); ok {
+		v = f()
+	}
+	switch val := v.(type) {
+	case map[string]interface{}:
+		dethunkMapDepthFirst(val)
+	case []interface{}:
+		dethunkListDepthFirst(val)
+	}
+	return v
 }
 
 // dethunkMapDepthFirst performs a serial descent of the map, calling any thunks
